@@ -8,6 +8,7 @@ var engineKind = map[string]string{
 	"tree": "real aml.ObjectTree driven by seeded edit/lookup histories against a reference tree and reference resolver (single party, no hardware)",
 	"acpi": "simulated firmware memory (fixed-address arena below 4 GiB) with generated valid ACPI images and a fault plan (byte corruption, decoy root pointers, mapping failures); real probe/enumeration code",
 	"tty":  "real tty.VT in lock-step with a reference terminal; consoles: reference cell grid, real VGA text console, real VESA framebuffer console on guarded host memory; independent pixel renderer as oracle",
+	"hal":  "real HAL bring-up over mock drivers with seeded detection orders, registration permutations, absent/failing drivers and pre-boot log volume; token-based ordering/exactly-once oracle over the log hand-over",
 	"pmmc": "same simulated boot, bitmap_allocator.go rebuilt with go/ast-inserted yields; 2-16 goroutine tasks under the seeded scheduler, real spinlock; ownership invariant, conservation at quiescence, exact deadlock detection, porcupine linearizability of recorded histories",
 }
 
@@ -80,4 +81,9 @@ func init() {
 		"Trusted: reference terminal, independent renderer (font bitmap -> pixels, palette -> packed pixel per colour masks). Area outside the grid is initialised uniformly (see assumptions).",
 		"deterministic simulation: two real components on simulated display hardware, cross-component invariant after every step",
 		"DESIGN.md 5.7")
+	t("C16",
+		"Seeded bring-up histories with injected probe/initialisation failures and ring overflow; ordering, exactly-once delivery and oldest-dropped-first are checked on unique tokens over the recorded byte stream the terminal received; active pair and linkage checked for both arrival orders.",
+		"Trusted: mock drivers, token bookkeeping. Real console drivers and the ACPI driver are not part of this engine's runs (mock consoles + real VT).",
+		"deterministic simulation with fault injection: seeded driver populations/failures/log volume, history oracle (ordering, exactly-once) over the recorded log stream",
+		"DESIGN.md 5.6")
 }
